@@ -23,7 +23,7 @@ func number(svc int, tr []Step) []Step {
 		if out[k].Kind != "tok" {
 			continue
 		}
-		if svc == LDAP || (svc == SMTP && out[k].T == 5) {
+		if svc == LDAP || (proto(svc) == SMTP && out[k].T == 5) {
 			out[k].A = k + 1
 		}
 	}
@@ -33,10 +33,10 @@ func number(svc int, tr []Step) []Step {
 // one session's script (without the connection being opened): mostly well-formed dialogue
 func genTokens(r *hx.Rand, svc, c, n int) []Step {
 	var s []Step
-	switch svc {
+	switch proto(svc) {
 	case LDAP:
 		for i := 0; i < n; i++ {
-			s = append(s, tk(c, r.PickInt([]int{1, 1, 2, 3, 4, 4, 4, 7}), 0))
+			s = append(s, tk(c, r.PickInt([]int{1, 1, 2, 3, 4, 4, 4, 4, 7}), 0))
 		}
 		if r.Chance(1, 6) {
 			s = append(s, tk(c, 6, 0))
@@ -223,9 +223,9 @@ func allMerges(ss [][]Step) [][]Step {
 func fixedScripts(svc int, three bool) [][]Step {
 	a, b, c := connID(0), connID(1), connID(2)
 	var ss [][]Step
-	switch svc {
+	switch proto(svc) {
 	case LDAP:
-		ss = [][]Step{{op(a), tk(a, 1, 0), tk(a, 4, 0), tk(a, 4, 0)}, {op(b), tk(b, 4, 0), tk(b, 3, 0)}, {op(c), tk(c, 2, 0)}}
+		ss = [][]Step{{op(a), tk(a, 1, 0), tk(a, 4, 0), tk(a, 4, 0)}, {op(b), tk(b, 4, 0), tk(b, 3, 0), cl(b)}, {op(c), tk(c, 2, 0)}}
 	case FTP:
 		ss = [][]Step{{op(a), tk(a, 1, 1), tk(a, 2, 1), tk(a, 4, 1), tk(a, 3, 0)}, {op(b), tk(b, 1, 1), tk(b, 2, 1), tk(b, 3, 0)}, {op(c), tk(c, 6, 0)}}
 		if three {
@@ -268,22 +268,23 @@ func corpus() []Input {
 	a, b, c := connID(0), connID(1), connID(2)
 	mk := func(svc int, tr ...Step) Input { return Input{Svc: svc, Trace: number(svc, tr)} }
 	return []Input{
-		// ldap: B connects after A has bound; A's next request is answered on B's connection,
-		// and as an unauthenticated one
+		// regression schedules of the repaired defects first.
+		// ldap (before /repo 1166e31): B connects after A has bound; A's next request was answered on
+		// B's connection, and as an unauthenticated one
 		mk(LDAP, op(a), tk(a, 1, 0), tk(a, 4, 0), op(b), tk(b, 3, 0), tk(a, 4, 0), tk(a, 4, 0)),
 		// ldap: nothing but B's arrival between A's bind and A's request
 		mk(LDAP, op(a), tk(a, 1, 0), op(b), tk(a, 4, 0)),
-		// ldap: B leaves, A's next request finds the service object's socket closed
+		// ldap: B leaves; A's next request used to find the service object's socket closed
 		mk(LDAP, op(a), tk(a, 1, 0), op(b), cl(b), tk(a, 4, 0)),
 		// ftp: an earlier session is over (regression: before /repo 9efeaf2 its event pump took lines
 		// of the next session)
 		mk(FTP, op(a), tk(a, 1, 1), cl(a), op(b), tk(b, 1, 1), tk(b, 2, 1), tk(b, 6, 0), tk(b, 6, 0)),
-		// ftp: A changes directory, B's PWD follows
+		// ftp (before /repo 5db0fa2): A changes directory, B's PWD followed
 		mk(FTP, op(a), tk(a, 1, 1), tk(a, 2, 1), op(b), tk(b, 1, 1), tk(b, 2, 1), tk(b, 3, 0), tk(a, 4, 1), tk(b, 3, 0)),
-		// ftp: the directory of a finished session is where the next one starts
+		// ftp: the directory of a finished session was where the next one started
 		mk(FTP, op(a), tk(a, 1, 1), tk(a, 2, 1), tk(a, 4, 8), tk(a, 8, 0), op(b), tk(b, 1, 1), tk(b, 2, 1), tk(b, 3, 0), tk(b, 4, 1)),
-		// smtp: mails of B while a session A has finished (its pump is gone since /repo 7ad8491) and
-		// the pump of an idle, open session C waits on the shared receive channel
+		// smtp (before /repo ed36195): mails of B while a session A has finished and the pump of an
+		// idle, open session C waited on the shared receive channel
 		mk(SMTP, op(a), tk(a, 1, 0), tk(a, 8, 0), op(c), op(b), tk(b, 1, 0), tk(b, 2, 0), tk(b, 3, 0), tk(b, 4, 0), tk(b, 5, 0),
 			tk(b, 2, 0), tk(b, 4, 0), tk(b, 5, 0), tk(b, 2, 0), tk(b, 4, 0), tk(b, 5, 0), tk(b, 8, 0)),
 		// tftp: two uploads interleaved, then the limiter boundary (5th datagram of A dropped)
@@ -292,6 +293,12 @@ func corpus() []Input {
 		mk(TFTP, tk(a, 2, 1), tk(b, 3, 1), tk(b, 4, 1), tk(a, 4, 1)),
 		// tftp: two clients behind one IP share the limiter (by design; not judged, only modelled)
 		mk(TFTP, tk(32, 1, 1), tk(32, 1, 2), tk(33, 1, 3), tk(32, 1, 1), tk(33, 1, 2), tk(32, 1, 3)),
+		// two smtp services in one process (a=17, c=51 on the first, b=34 on the second): nobody on the
+		// second service - the session used to hang after its first mail; then with an idle client on
+		// the second service - the mail used to be reported a second time under that client's address
+		mk(SMTP2, op(a), tk(a, 1, 0), tk(a, 2, 0), tk(a, 4, 0), tk(a, 5, 0), tk(a, 6, 0), tk(a, 2, 0), tk(a, 4, 0), tk(a, 5, 0), tk(a, 8, 0)),
+		mk(SMTP2, op(b), op(a), tk(a, 1, 0), tk(a, 2, 0), tk(a, 4, 0), tk(a, 5, 0), tk(a, 6, 0), tk(b, 1, 0), tk(b, 6, 0), tk(a, 8, 0), tk(b, 8, 0)),
+		mk(SMTP2, op(a), op(b), tk(b, 1, 0), tk(a, 1, 0), tk(b, 2, 0), tk(a, 2, 0), tk(b, 4, 0), tk(a, 4, 0), tk(b, 5, 0), tk(a, 5, 0), op(c), tk(c, 1, 0), tk(c, 2, 0), tk(c, 4, 0), tk(c, 5, 0)),
 		mk(TELNET, op(a), op(b), tk(a, 1, 0), tk(b, 2, 0), tk(a, 1, 0), tk(b, 3, 0), tk(a, 2, 0), tk(b, 1, 0), cl(a), tk(b, 2, 0)),
 		mk(REDIS, op(a), op(b), tk(a, 1, 0), tk(b, 2, 0), tk(a, 5, 0), tk(b, 3, 0), tk(a, 1, 0)),
 		mk(MEMCACHED, op(a), op(b), tk(a, 4, 0), tk(b, 2, 0), tk(a, 5, 0), tk(b, 3, 0), tk(b, 1, 0)),
@@ -301,11 +308,11 @@ func corpus() []Input {
 
 func generate(r *hx.Rand, tier string) []Input {
 	ins := corpus()
-	nRandom, nHist := 45, 10
+	nRandom, nHist := 32, 10
 	if tier != "quick" {
 		nRandom, nHist = 450, 100
 	}
-	for svc := LDAP; svc <= HTTP; svc++ {
+	for svc := LDAP; svc <= SMTP2; svc++ {
 		// exhaustive: every interleaving of two fixed scripts (and of three short ones beyond quick)
 		for _, m := range allMerges(fixedScripts(svc, false)) {
 			ins = append(ins, Input{Svc: svc, Trace: number(svc, m)})
